@@ -30,6 +30,7 @@ mod probe;
 mod proto;
 mod rng;
 mod timegen;
+mod textgen;
 
 use std::path::PathBuf;
 
